@@ -1,15 +1,52 @@
 // c01.cpp — the sequential exact entry points (mcb_sva_signed, mcb_sva_fvs_trees, mcb_sva_iso_trees) and the
 // bidirectional signed search on the real code.
 //   A <alg> <D|I> <scale> <graph>          alg = signed | fvs | iso ; D = double weights w*2^scale, I = int weights
+//        for fvs / iso the line ends with the oracles of the as-executed trees model (TreesFloatModel.v, exact tie of
+//        tools/trees_common.py):  FVS = the sources of the builder's trees (the feedback vertex set actually used, in emission
+//        order, or all vertices) and ORD = the arrangement std::sort leaves the builder's candidates in, as positions of the
+//        builder's emission order.  Recovered by running the same builder and the same std::sort call as _mcb_sva_trees on the
+//        same graph object, once before and once after the entry point; the two recoveries must agree (same number of
+//        candidates, same sources, same arrangement), otherwise the case fails.
 //   B <D|I> <use_hidden> <s> <spos> <t> <tpos> <limit|-> <k signed ids> <k hidden ids> <graph>
 #include "mcb_common.hpp"
 #include <parmcb/parmcb_sva_signed.hpp>
 #include <parmcb/parmcb_sva_trees.hpp>
 
+// the builder of the entry point + the std::sort call of _mcb_sva_trees: (sources of the trees, arrangement of the candidates)
+template<class G, class Builder> static std::pair<std::vector<size_t>, std::vector<size_t>> build_sorted(GCase<G> &c) {
+    typedef typename boost::property_map<G, boost::edge_weight_t>::type WMap;
+    WMap wm = boost::get(boost::edge_weight, c.g);
+    std::vector<parmcb::SPTree<G, WMap>> trees; std::vector<parmcb::CandidateCycle<G, WMap>> cycles;
+    Builder bld;
+    bld(c.g, wm, trees, cycles);
+    std::map<std::pair<size_t, size_t>, size_t> pos;          // (tree, edge id) -> position in the builder's output
+    for (size_t i = 0; i < cycles.size(); i++) {
+        auto key = std::make_pair((size_t) cycles[i].tree(), c.id(cycles[i].edge()));
+        if (pos.count(key)) throw std::runtime_error("candidate emitted twice");
+        pos[key] = i;
+    }
+    std::sort(cycles.begin(), cycles.end(), [](const auto &a, const auto &b) {
+        return a.weight() < b.weight();
+    });
+    std::pair<std::vector<size_t>, std::vector<size_t>> r;
+    for (auto &t : trees) r.first.push_back(t.source());
+    for (auto &cc : cycles) r.second.push_back(pos.at(std::make_pair((size_t) cc.tree(), c.id(cc.edge()))));
+    return r;
+}
+
+template<class G> static std::pair<std::vector<size_t>, std::vector<size_t>> trees_oracles(const std::string &alg, GCase<G> &c) {
+    typedef typename boost::property_map<G, boost::edge_weight_t>::type WMap;
+    if (alg == "fvs") return build_sorted<G, parmcb::detail::FVSCyclesBuilder<G, WMap>>(c);
+    return build_sorted<G, parmcb::detail::ISOCyclesBuilder<G, WMap>>(c);
+}
+
 template<class G> void run_alg(const std::string &alg, Toks &t, int scale, std::ostream &out) {
     typedef typename boost::graph_traits<G>::edge_descriptor Edge;
     GCase<G> c; read_graph(t, c, scale);
     print_oracles(out, c);
+    const bool tree_variant = alg == "fvs" || alg == "iso";
+    std::pair<std::vector<size_t>, std::vector<size_t>> before;
+    if (tree_variant) before = trees_oracles(alg, c);
     std::list<std::list<Edge>> cycles;
     auto wm = boost::get(boost::edge_weight, c.g);
     typename boost::property_traits<decltype(wm)>::value_type ret;
@@ -19,6 +56,15 @@ template<class G> void run_alg(const std::string &alg, Toks &t, int scale, std::
     else throw std::runtime_error("bad alg");
     out << " RET " << exact_weight(ret, scale);
     print_cycles(out, c, cycles);
+    if (tree_variant) {
+        auto after = trees_oracles(alg, c);
+        if (after.second.size() != before.second.size()) throw std::runtime_error("re-run of the builder yields a different number of candidates");
+        if (after != before) throw std::runtime_error("re-run of the builder and std::sort yields a different arrangement");
+        out << " FVS";
+        for (auto v : after.first) out << " " << v;
+        out << " ORD";
+        for (auto i : after.second) out << " " << i;
+    }
 }
 
 template<class G> void run_bidir(Toks &t, std::ostream &out) {
